@@ -195,8 +195,9 @@ class VmRun(object):
         self.ext_hooks = ext_hooks or {}
         install_type_hooks(it)
         self.prog = build_program(it, pj)
-        self.machine = self.build_machine(self.prog)
-        self.mref = Ref([self.machine], 0)
+        self.rt = None                      # VmDspRuntime (mimium-audiodriver), built by run_main from the MIR of VmDspRuntime::new
+        self._machine = self.build_machine(self.prog)
+        self.workers = []                   # Box<dyn SystemPluginAudioWorker> values handed to the runtime
         self.dsp_i = pj['dsp_index'] if pj.get('dsp_index') is not None else self.fn_index('dsp')
         self.n_in = pj['io']['input'] if pj.get('io') else 0
         self.n_out = pj['io']['output'] if pj.get('io') else 0
@@ -275,26 +276,50 @@ class VmRun(object):
     def stack(self):
         return self.field('stack').buf
 
-    # -- protocol --------------------------------------------------------------------------------
+    # -- the machine lives inside the VmDspRuntime once that exists (try_hot_swap replaces it there) ------------------
+    @property
+    def machine(self):
+        return self.rt.fields[0] if self.rt is not None else self._machine
+
+    @property
+    def mref(self):
+        return Ref(self.rt.fields, 0) if self.rt is not None else Ref([self._machine], 0)
+
+    # -- protocol: every step is the MIR of the real driver-facing functions ----------------------------------------
     def run_main(self):
-        """ExecContext::run_main -> Machine::execute_main; then VmDspRuntime::new zero-fills the input registers"""
-        r = self.it.call('Machine::execute_main', [self.mref], None)
-        if self.n_in:
-            self.set_input([Sc('u64', 0)] * self.n_in)
+        """ExecContext::run_main -> Machine::execute_main; then RuntimeData::new -> VmDspRuntime::new(vm, plugins)
+        (crates/lib/plugins/mimium-audiodriver/src/driver.rs), which zero-fills the input registers"""
+        it = self.it
+        r = it.call('Machine::execute_main', [self.mref], None)
+        s = it.layouts.find_struct('VmDspRuntime')
+        if s is None or s.fields[0] != 'vm':
+            raise Unsupported('VmDspRuntime changed: %r' % (s.fields if s else None))
+        rt = it.call('VmDspRuntime::new', [self._machine, Slice([], 0, 0)], None)
+        if self.workers:
+            rt.fields[s.fields.index('sys_plugin_workers')] = VecV(list(self.workers))
+        self.rt = rt
+        self.rtref = Ref([rt], 0)
         return r
 
     def set_input(self, words):
-        """VmDspRuntime::set_input: set_stack_range(0, raw)"""
-        buf = list(words)
-        self.it.call('Machine::set_stack_range', [self.mref, Sc('i64', 0), Slice(buf, 0, len(buf))], None)
+        """<VmDspRuntime as DspRuntime>::set_input(&[f64])"""
+        buf = list(words)        # raw words: the &[f64] -> &[u64] transmute of set_input is the identity on bit patterns
+        self.it.call('VmDspRuntime::set_input', [self.rtref, Slice(buf, 0, len(buf))], None)
 
     def run_dsp(self):
-        """VmDspRuntime::run_dsp (without plugin workers): execute_idx(dsp_i), then get_top_n(ochannels)"""
+        """<VmDspRuntime as DspRuntime>::run_dsp(Time(now)) then get_output(ochannels), as the drivers do"""
         it = self.it
-        rc = it.call('Machine::execute_idx', [self.mref, Sc('usize', self.dsp_i)], None)
+        rc = it.call('VmDspRuntime::run_dsp', [self.rtref, Agg('Time', None, [self.now[0]])], None)
         outs = []
         if self.n_out > 0:
-            s = it.call('Machine::get_top_n', [self.mref, Sc('usize', self.n_out)], None)
+            s = it.call('VmDspRuntime::get_output', [self.rtref, Sc('usize', self.n_out)], None)
             st, ln = s.start, s.len
             outs = [s.buf[i] for i in range(st, st + ln)]
         return rc, outs
+
+    def try_hot_swap(self, new_prog):
+        """<VmDspRuntime as DspRuntime>::try_hot_swap(ProgramPayload::VmProgram(prog))"""
+        it = self.it
+        e = it.layouts.find_enum('ProgramPayload')
+        payload = Agg(it.enum_tag(e), e.variant_index('VmProgram'), [new_prog])
+        return it.call('VmDspRuntime::try_hot_swap', [self.rtref, payload], None)
